@@ -267,6 +267,8 @@ Skeleton(doc) ==
                /\ Len(e) >= 2
                /\ IsHtmlNamed(e[1], S_head)
                /\ \/ (IsHtmlNamed(e[2], S_body) /\ Len(e) = 2)
-                  \/ (IsHtmlNamed(e[2], S_frameset) /\ (Len(e) = 2 \/ (Len(e) = 3 /\ IsHtmlNamed(e[3], S_noframes))))
+                  \* "optionally followed by noframes": zero or more noframes elements - the after-frameset and
+                  \* after-after-frameset modes insert one for every noframes start tag, so WHATWG itself yields several
+                  \/ (IsHtmlNamed(e[2], S_frameset) /\ \A k \in 3..Len(e) : IsHtmlNamed(e[k], S_noframes))
             /\ TextOk(h)
 =============================================================================
